@@ -91,6 +91,11 @@ def gen_select(rng, features):
         m = rng.choice(['proj.pred', 'proj.pred2', 'proj.pred.3', 'PROJ.pred'] if spell else ['proj.pred', 'proj.pred2', 'proj.pred.3'])
         frm += f' join {m} as m'
         meta['model'] = m
+        meta['model2'] = None
+        if rng.random() < 0.3:
+            m2 = rng.choice(['proj.pred2', 'proj.pred'])
+            frm += f' join {m2} as m2'
+            meta['model2'] = m2
         if rng.random() < 0.4 and len(tabs) < 3 and 'join' in features:
             name, t = tref(rng, rng.choice(integs))
             frm += f' join {name} as z on z.a = {aliases[0]}.a'
@@ -119,7 +124,10 @@ def gen_select(rng, features):
         if rng.random() < 0.3:
             sql += f' offset {rng.randint(1, 2)}'
     if use_model and 'using' in features and rng.random() < 0.4:
-        sql += rng.choice([' using a=1', ' using partition_size=2', ' using M.x=1, y=2', ' using partition_size=3, b=1'])
+        opts = [' using a=1', ' using partition_size=2', ' using M.x=1, y=2', ' using partition_size=3, b=1']
+        if meta.get('model2'):
+            opts += [' using m.partition_size=4, m2.partition_size=2', ' using m2.partition_size=5', ' using m.partition_size=3, m2.a=1']
+        sql += rng.choice(opts)
     meta['tables'] = [(n, a, ig) for n, a, _, ig in tabs]
     meta['aliases'] = aliases
     return sql, meta
@@ -144,7 +152,14 @@ def gen_statement(rng, features):
         return f'{s1} union {s2}', {'kind': 'union'}
     if 'cte' in features and k < 0.36:
         s1, m1 = gen_select(rng, features - {'model', 'join'})
-        return f'with c1 as ({s1}) select * from c1 where a = 1', {'kind': 'cte'}
+        # the CTE name may coincide with the last part of a table / model / view that is used elsewhere in the query
+        cname = rng.choice(['c1', 'pred', 't1', 'u2', 'v1'])
+        tail = rng.choice(['where a = 1',
+                           "where a > (select c from proj.pred where b = 'x')",
+                           'where a in (select a from proj.v1)',
+                           'where a in (select a from int2.u2)',
+                           'where a in (select a from int1.t1 where b = 2)'])
+        return f'with {cname} as ({s1}) select * from {cname} {tail}', {'kind': 'cte'}
     if 'nested' in features and k < 0.44:
         s1, m1 = gen_select(rng, features - {'limit', 'order'})
         return f'select s.a from ({s1}) as s where s.b = 1 limit 2', {'kind': 'nested'}
@@ -153,3 +168,27 @@ def gen_statement(rng, features):
 
 ALL_FEATURES = {'join', 'model', 'where', 'subquery', 'group', 'order', 'limit', 'using', 'outer', 'spelling', 'dml', 'union',
                 'cte', 'nested'}
+
+
+# hand-written shapes that need a particular coincidence to go wrong; every planner check runs them with every catalog
+EDGE_STATEMENTS = [
+    "with pred as (select * from int1.t1) select * from pred where a > (select c from proj.pred where b = 'x')",
+    "with v1 as (select * from int1.t1) select * from v1 where a in (select a from proj.v1)",
+    "with t2 as (select * from int1.t1) select * from t2 where a in (select a from int2.t2)",
+    "with c1 as (select * from int1.t1) select * from c1 join int2.t2 on c1.a = t2.a",
+    "select * from int1.t1 as t join proj.pred as m join proj.pred2 as m2 using m.partition_size=4, m2.partition_size=2",
+    "select * from int1.t1 as t join proj.pred as m join proj.pred2 as m2 using partition_size=4",
+    "select * from int1.t1 as t join proj.pred as m join int2.t2 as z on z.a = t.a join proj.pred2 as m2 using m.partition_size=2",
+    "select * from int1.t1 as t join proj.pred as m join int2.t2 as z on z.a = t.a using partition_size=2",
+    "select * from INT1.t1 join int2.t2 on t1.a = t2.a",
+    "select * from int1.t1 as int1 join int1.u1 as t on int1.a = t.a",
+    "select * from int1.t1 where a in (select a from int2.t2 where b in (select b from int3.t3))",
+    "select * from int1.t1 union select * from int2.t2 union select * from int1.u1",
+    "select * from (select * from int1.t1 limit 3) as s join int2.t2 on s.a = t2.a where t2.b = 1 limit 2",
+    "select t1.a from int1.t1 left join int2.t2 on t1.a = t2.a where not t2.b = 1 order by t1.a limit 2 offset 1",
+    "select * from int1.t1 join proj.pred as m where m.a = 1 and t1.b = 2 or t1.c = 3",
+    "insert into int2.t2 (a, b) select a, b from int1.t1 join proj.pred as m where m.a = 1",
+    "update int1.t1 set a = 1 from (select * from int2.t2) as s where s.a = t1.a",
+    "delete from int1.t1 where a in (select a from int2.t2 where b = 1)",
+    "create table int2.copy1 as select * from int1.t1 join int3.t3 on t1.a = t3.a",
+]
